@@ -63,6 +63,16 @@ func newProject(ext string) (c *modfile.Project, ok bool) {
 			Ext: ".tgmx", Class: "*MyGame",
 			Works:    []*modfile.Class{{Ext: ".tspx", Class: "Sprite"}},
 			PkgPaths: []string{"github.com/goplus/xgo/cl/internal/spx", "math"}}, true
+	case ".t2gmx", ".t2spx":
+		return &modfile.Project{
+			Ext: ".t2gmx", Class: "Game",
+			Works:    []*modfile.Class{{Ext: ".t2spx", Class: "Sprite"}},
+			PkgPaths: []string{"github.com/goplus/xgo/cl/internal/spx2"}}, true
+	case ".t4gmx", ".t4spx":
+		return &modfile.Project{
+			Ext: ".t4gmx", Class: "*MyGame",
+			Works:    []*modfile.Class{{Ext: ".t4spx", Class: "Sprite"}},
+			PkgPaths: []string{"github.com/goplus/xgo/cl/internal/spx4", "math"}}, true
 	case "_spx.gox":
 		return &modfile.Project{
 			Ext: "_spx.gox", Class: "Game",
@@ -311,6 +321,39 @@ func genClassProject(plan *simrt.Source) *pkgSrc {
 	return p
 }
 
+// genMultiFramework builds one package holding class files of two or three
+// class frameworks at once, most of them WITHOUT their project file (the
+// project class is then generated by the compiler): the order in which the
+// frameworks and their generated classes come out must not depend on how the
+// files were listed.
+func genMultiFramework(plan *simrt.Source) *pkgSrc {
+	p := &pkgSrc{name: "generated-multi-framework", files: map[string]string{}}
+	type fw struct{ work, proj, body, projBody string }
+	fws := []fw{
+		{".tspx", "Game.tgmx", "func onInit() {\n\tprintln \"%s\"\n}\n", "initGameApp\n"},
+		{".t2spx", "Main.t2gmx", "println \"%s\"\n", "println \"main\"\n"},
+		{".t4spx", "Start.t4gmx", "func onInit() {\n\tprintln \"%s\"\n}\n", "println \"start\"\n"},
+	}
+	names := []string{"Kai", "Abc", "Zed", "Moe", "Bob", "Ann", "Eve"}
+	k := plan.Draw(len(fws)) // the framework left out when only two are used
+	three := plan.Chance(300)
+	ni := plan.Draw(len(names))
+	for i, f := range fws {
+		if !three && i == k {
+			continue
+		}
+		for j, n := 0, 1+plan.Draw(2); j < n; j++ {
+			nm := names[ni%len(names)]
+			ni++
+			p.files[nm+f.work] = fmt.Sprintf(f.body, nm)
+		}
+		if plan.Chance(250) {
+			p.files[f.proj] = f.projBody
+		}
+	}
+	return p
+}
+
 // --- compile under a schedule -----------------------------------------------------------
 
 type env0 struct {
@@ -433,6 +476,9 @@ func (c08) NewRun(plan *simrt.Source, job *harn.Job) harn.Run {
 	}
 	if r.pkg == nil && plan.Chance(250) {
 		r.pkg = genClassProject(plan)
+	}
+	if r.pkg == nil && plan.Chance(200) {
+		r.pkg = genMultiFramework(plan)
 	}
 	if r.pkg == nil {
 		r.pkg = genPackage(plan)
